@@ -99,8 +99,12 @@ func (p *Portfolio) Solve(q *Query, tag string) (SolverResult, []SolverResult) {
 	ctx, cancel := context.WithCancel(context.Background())
 	defer cancel()
 	ch := make(chan SolverResult, len(p.Solvers))
+	tmo := p.TimeoutMs
+	if q.TimeoutMs > 0 {
+		tmo = q.TimeoutMs
+	}
 	for _, s := range p.Solvers {
-		go func(s string) { ch <- runSolver(ctx, s, file, p.TimeoutMs, p.Seed) }(s)
+		go func(s string) { ch <- runSolver(ctx, s, file, tmo, p.Seed) }(s)
 	}
 	var all []SolverResult
 	var winner *SolverResult
@@ -142,7 +146,7 @@ func (p *Portfolio) Solve(q *Query, tag string) (SolverResult, []SolverResult) {
 			}
 		}
 	}
-	if winner.Result == "sat" {
+	if winner.Result == "sat" && q.Goal != nil {
 		// get a model from the winning solver
 		mfile := file + ".model.smt2"
 		_ = os.WriteFile(mfile, []byte(q.Render(true)), 0o644)
@@ -191,8 +195,31 @@ func (p *Portfolio) DischargeAll(obs []*Obligation, workers int) {
 			ob.Solver = "trivial"
 		}
 	}
+	coverSat := map[*Obligation]bool{}
+	for _, r := range results {
+		if r.j.ob.Kind == "cover" {
+			r.j.ob.Ms += r.r.Ms
+			if r.r.Result != "unsat" {
+				coverSat[r.j.ob] = true
+				r.j.ob.Solver = r.r.Solver
+			}
+		}
+	}
+	for _, ob := range obs {
+		if ob.Kind == "cover" {
+			if coverSat[ob] {
+				ob.Status = "discharged"
+			} else {
+				ob.Status = "unknown"
+				ob.Detail = "vacuous: no return path is satisfiable under the precondition"
+			}
+		}
+	}
 	for _, r := range results {
 		ob := r.j.ob
+		if ob.Kind == "cover" {
+			continue
+		}
 		ob.Ms += r.r.Ms
 		switch r.r.Result {
 		case "unsat":
